@@ -195,6 +195,32 @@ def r7(ctx, rid):
     c09.p12(ctx, rid)
 
 
+def r8(ctx, rid):
+    """the timestamp a client passes to write / delete is the timestamp of the record: on the way from the public entry points to
+    `Record::create` / `Record::deleted` it is only converted (`into`), never combined with another value (`min(now)`, a clamp,
+    a default).  A deletion stamped differently from what the client said ranks differently against the puts of the key: a put
+    with a timestamp between the stamped and the requested one outranks a marker that should shadow it"""
+    prog = ctx.prog
+    n = 0
+    for f in prog.fns.values():
+        if not (f.file.startswith('src/storage/') or f.file.startswith('src/blob/')):
+            continue
+        for c in f.calls:
+            if c.bb not in f.reachable() or c.name not in ('create', 'deleted') or not any(t.startswith('record::record::Record') for t in prog.resolve(c)) or len(c.args) < 2:
+                continue
+            n += 1
+            key = 'client-timestamp-unchanged|%s|%s' % (prog.fns[f.id].root, c.name)
+            ogs = core.origins_ip(prog, f, c.args[1], depth=6)
+            odd = [o for o in ogs if o.kind not in ('arg', 'upvar')]
+            if odd:
+                what = odd[0].data.full[:60] if odd[0].kind == 'call' else odd[0].kind
+                ctx.bad(rid, key, c.where(), 'the timestamp of the record is not the one the client passed: it is computed through `%s`' % what)
+            else:
+                ctx.ok(rid, key, c.where(), 'the record is stamped with the value handed in by the caller')
+    if n < 2:
+        raise core.AnchorLost('record constructions in the storage / blob code: %d' % n)
+
+
 RULES = [
     Rule('C01.R1', 'equal timestamps: the in-memory insertion position is behind every record with the same timestamp (C02.U10 instance)', r1, 1),
     Rule('C01.R2', 'the point lookup consults every candidate blob before it returns Ok (C02.U6 instance)', r2, 1),
@@ -202,5 +228,6 @@ RULES = [
     Rule('C01.R4', 'the merge sees the active blob first, then the closed blobs newest to oldest through an order-preserving stream', r4, 1),
     Rule('C01.R6', 'opened blobs are ordered by their numeric id and nothing else', r6, 1),
     Rule('C01.R7', 'a leaf of the on-disk index starts at the newest header of a key (C09.P12 instance)', r7, 1),
+    Rule('C01.R8', 'a record is stamped with the timestamp the client passed, unchanged', r8, 2),
     Rule('C01.R5', 'the in-memory latest-version lookup takes the last element of the ascending per-key vector', r5, 1),
 ]
